@@ -26,7 +26,8 @@ BOUND = ("intervals [0,1], [-1,3], [-6,-3], [0.5,0.75], [2,2.125] (end points an
          "point only without forcing: GridBinaryTree.init_tree asserts a root) -- exhaustive on 3 intervals (quick) / 5 (thorough), plus "
          "seeded random trees of depth<=7 (thorough); complete grids of depth m=0..5 for the exactness clauses; BalancedExtrapolationGrid and "
          "GlobalBalancedRombergGrid on every balanced tree (0 or 2 children) of depth<=5 (677 trees); GridBinaryTree completion on every tree "
-         "of depth<=4; GlobalRombergGrid wrapper (one object per option triple, cache on) on every tree of depth<=3 twice, interleaved. "
+         "of depth<=4; history passes (12 wrapper objects x 12 rotations x 12 trees on two intervals; object reuse over 16 trees for all "
+         "24 option tuples and the balanced grid); GlobalRombergGrid wrapper (one object per option triple, cache on) on every tree of depth<=3 twice, interleaved. "
          "Lagrange containers, constant subtraction and init_perfect_tree_with_max_level are out of scope")
 RULE = BOUND + "; a case is one (interval, level sequence of the tree, option tuple); every case with at least one inner point is non-trivial"
 BUDGET = {"quick": 60.0, "thorough": 840.0}
@@ -41,6 +42,15 @@ CLAUSES = {
     "B.balanced.exactness": "BalancedExtrapolationGrid on the complete grid of depth m in 1..5: exact for degree <= 2m-1 (1e-9 H)",
     "B.tree.completion": "GridBinaryTree.init_tree + force_full_tree_invariant: result is a strictly increasing dyadic refinement tree grid "
                          "on the same interval, contains every given point with its level, and every inner node has 0 or 2 children",
+    "B.hist.wrapper_config": "weights delivered by a GlobalRombergGrid depend only on its own configuration and the tree: twelve differently "
+                             "configured wrapper objects alive in one process visit the same trees in rotating order (every configuration is "
+                             "first on some trees and later on others); each delivery equals (1e-12 H) the weights of a fresh ExtrapolationGrid "
+                             "of that configuration, on complete trees the default-Romberg deliveries are exact to degree 2m+1 and UNIT/TRAPEZOID "
+                             "deliveries equal the closed-form trapezoid weights (x_{i+1}-x_{i-1})/2",
+    "B.hist.idempotent": "repeating set_grid/get_weights on the same object for the same tree returns the same weights, and weight arrays handed "
+                         "out earlier (kept by reference) still equal the copy taken at delivery after all later calls",
+    "B.hist.reuse": "one ExtrapolationGrid (every option tuple) / BalancedExtrapolationGrid object reused for a sequence of different trees, "
+                    "there and back, gives for every tree exactly the weights a fresh object gives",
     "B.wrap.global": "GlobalRombergGrid / GlobalBalancedRombergGrid.set_grid (weight cache on, repeated and interleaved requests) deliver "
                      "one weight per point that sum to b-a and integrate linear functions exactly",
 }
@@ -287,6 +297,152 @@ def wrapper2d_pass(ctx, boxes, trees, options=None):
 
 
 # ----------------------------------------------------------------------------------------------------------------
+# history clauses: several objects / several trees in one process
+def history_trees():
+    """complete trees of depth 1..4 (exactness can be judged through the wrappers) and adaptive trees, several of equal size"""
+    ts = [("c%d" % m, complete_levels(m), m) for m in (1, 2, 3, 4)]
+    picks = [t for t in all_trees(3) if t is not None]
+    for k in (3, 7, 11, 12, 16, 19, 22, 24):
+        ts.append(("t%d" % k, levels_of(picks[k]), None))
+    return ts
+
+
+def trapezoid_weights(grid):
+    n = len(grid)
+    return [((grid[min(i + 1, n - 1)] - grid[max(i - 1, 0)]) / 2.0) for i in range(n)]
+
+
+def fresh_weights(grouping, slice_v, container, balanced, grid, levels):
+    eg = make_grid(grouping, slice_v, container, balanced)
+    with quiet():
+        eg.set_grid(list(grid), list(levels))
+        return [float(x) for x in eg.get_weights()], list(eg.get_grid())
+
+
+def same(w1, w2, H):
+    return len(w1) == len(w2) and all(abs(float(x) - float(y)) <= 1e-12 * H for x, y in zip(w1, w2))
+
+
+def wrapper_history_case(ctx, case):
+    """twelve differently configured GlobalRombergGrid objects, all alive, visit the trees in an order rotated by case['rotation']"""
+    from sparseSpACE.Grid import GlobalRombergGrid
+    from sparseSpACE.Extrapolation import SliceGrouping, SliceVersion, SliceContainerVersion
+    a, b, rot = case["a"], case["b"], case["rotation"]
+    H = b - a
+    configs = list(itertools.product(GROUPINGS, SLICES, CONTAINERS))
+    objs = None
+    with ctx.guard("B.hist.wrapper_config", SITE_GR, "construct-raises"):
+        objs = [GlobalRombergGrid([a], [b], slice_grouping=SliceGrouping[g], slice_version=SliceVersion[sv], container_version=SliceContainerVersion[cv])
+                for g, sv, cv in configs]
+    if objs is None:
+        return
+    handed_out = []
+    for t_no, (name, levels, m) in enumerate(history_trees()):
+        grid, _ = grid_from_levels(a, b, levels)
+        order = [(rot + t_no + i) % len(configs) for i in range(len(configs))]
+        for pos, ci in enumerate(order):
+            g, sv, cv = configs[ci]
+            wc = wclass(g, sv, cv) + ("/first-on-tree" if pos == 0 else "/after-other-config")
+            w = None
+            with ctx.guard("B.hist.wrapper_config", SITE_GR, wc + "-raises"):
+                with quiet():
+                    objs[ci].set_grid([list(grid)], [list(levels)])
+                w_ref = objs[ci].weights[0]
+                w = [float(x) for x in w_ref]
+            if w is None:
+                continue
+            handed_out.append((w_ref, list(w), wclass(g, sv, cv), name))
+            fw, _ = fresh_weights(g, sv, cv, False, grid, levels)
+            msg = None
+            if not same(w, fw, H):
+                msg = "tree %s: wrapper delivers %s, a fresh ExtrapolationGrid of this configuration %s" % (name, w[:5], fw[:5])
+            elif sv == "TRAPEZOID" and g == "UNIT" and not same(w, trapezoid_weights(grid), H):
+                msg = "tree %s: UNIT/TRAPEZOID delivery %s is not the trapezoidal rule %s" % (name, w[:5], trapezoid_weights(grid)[:5])
+            elif m is not None and cv == "ROMBERG_DEFAULT" and (sv == "ROMBERG_DEFAULT" or g != "UNIT"):
+                bad = [(k, moment_defect(w, grid, a, b, k)) for k in range(2 * m + 2)]
+                bad = [x for x in bad if not x[1] <= 1e-9]
+                if bad:
+                    msg = "complete tree of depth %d: delivery not exact, (degree, rel. defect) %s" % (m, bad[:3])
+            ctx.check("B.hist.wrapper_config", msg is None, SITE_GR, wc, msg or "")
+            # the same request again on the same object
+            w2 = None
+            with ctx.guard("B.hist.idempotent", SITE_GR, wclass(g, sv, cv) + "/second-request-raises"):
+                with quiet():
+                    objs[ci].set_grid([list(grid)], [list(levels)])
+                w2 = [float(x) for x in objs[ci].weights[0]]
+            if w2 is not None:
+                ctx.check("B.hist.idempotent", same(w, w2, 0.0), SITE_GR, wclass(g, sv, cv) + "/second-request",
+                          "tree %s: first request %s, second request %s" % (name, w[:5], w2[:5]))
+    changed = [(wc, name) for ref, cp, wc, name in handed_out if [float(x) for x in ref] != cp]
+    ctx.check("B.hist.idempotent", not changed, SITE_GR, "reported-earlier", "weight arrays changed after delivery: %s" % changed[:3])
+
+
+def reuse_case(ctx, case):
+    """one object, many trees, there and back"""
+    from sparseSpACE.Extrapolation import BalancedExtrapolationGrid
+    a, b = case["a"], case["b"]
+    H = b - a
+    trees = history_trees()
+    seq = trees + list(reversed(trees))
+    if case["object"] == "balanced":
+        bt = [levels_of(t) for t in balanced_trees(4)][::3] + [complete_levels(4)]
+        seq2 = bt + list(reversed(bt))
+        obj = BalancedExtrapolationGrid()
+        for levels in seq2:
+            grid, _ = grid_from_levels(a, b, levels)
+            w = f = None
+            with ctx.guard("B.hist.reuse", SITE_BAL, "reused-object-raises"):
+                obj.set_grid(list(grid), list(levels))
+                w = [float(x) for x in obj.get_weights()]
+                w_again = [float(x) for x in obj.get_weights()]
+                fo = BalancedExtrapolationGrid()
+                fo.set_grid(list(grid), list(levels))
+                f = [float(x) for x in fo.get_weights()]
+            if w is not None and f is not None:
+                ctx.check("B.hist.reuse", same(w, f, H), SITE_BAL, "reused-object", "levels %s: reused object %s, fresh object %s" % (levels, w[:5], f[:5]))
+                ctx.check("B.hist.idempotent", w == w_again, SITE_BAL, "balanced/second-request", "get_weights twice: %s vs %s" % (w[:5], w_again[:5]))
+        return
+    g, sv, cv, balanced = case["grouping"], case["slice"], case["container"], case["balanced"]
+    wc = wclass(g, sv, cv)
+    eg = make_grid(g, sv, cv, balanced)
+    handed = []
+    for name, levels, m in seq:
+        grid, _ = grid_from_levels(a, b, levels)
+        w = None
+        with ctx.guard("B.hist.reuse", SITE_W, wc + "/reused-object-raises"):
+            with quiet():
+                eg.set_grid(list(grid), list(levels))
+                w_ref = eg.get_weights()
+                w_again = [float(x) for x in eg.get_weights()]
+            w = [float(x) for x in w_ref]
+            g_used = list(eg.get_grid())
+        if w is None:
+            continue
+        handed.append((w_ref, list(w), name))
+        fw, fg = fresh_weights(g, sv, cv, balanced, grid, levels)
+        ctx.check("B.hist.reuse", g_used == fg and same(w, fw, H), SITE_W, wc + "/reused-object",
+                  "tree %s: reused object %s, fresh object %s" % (name, w[:5], fw[:5]))
+        ctx.check("B.hist.idempotent", w == w_again, SITE_W, wc + "/second-request", "tree %s: get_weights twice %s vs %s" % (name, w[:5], w_again[:5]))
+    changed = [name for ref, cp, name in handed if [float(x) for x in ref] != cp]
+    ctx.check("B.hist.idempotent", not changed, SITE_W, wc + "/reported-earlier", "weight lists changed after delivery for trees %s" % changed[:4])
+
+
+def history_pass(ctx, intervals):
+    for (a, b) in intervals:
+        for rot in range(12):
+            case = {"kind": "wrapper_history", "a": a, "b": b, "rotation": rot}
+            ctx.case(case)
+            wrapper_history_case(ctx, case)
+        for g, sv, cv, balanced in itertools.product(GROUPINGS, SLICES, CONTAINERS, (False, True)):
+            case = {"kind": "reuse", "object": "extrapolation", "a": a, "b": b, "grouping": g, "slice": sv, "container": cv, "balanced": balanced}
+            ctx.case(case)
+            reuse_case(ctx, case)
+        case = {"kind": "reuse", "object": "balanced", "a": a, "b": b}
+        ctx.case(case)
+        reuse_case(ctx, case)
+
+
+# ----------------------------------------------------------------------------------------------------------------
 def option_tuples(levels):
     for grouping, slice_v, container, balanced in itertools.product(GROUPINGS, SLICES, CONTAINERS, (False, True)):
         if balanced and len(levels) <= 2:
@@ -328,6 +484,7 @@ def run(ctx):
     for (a, b) in intervals[:2]:
         wrapper_pass(ctx, a, b, all_trees(3))
     wrapper2d_pass(ctx, [((0.0, 1.0), (-1.0, 2.0)), ((-3.0, 6.0), (0.0, 1.0))], all_trees(3))
+    history_pass(ctx, [(0.0, 1.0), (-1.0, 3.0)])
     # all trees of depth <= 4, all options
     for (a, b) in intervals:
         for t in trees4:
@@ -371,6 +528,10 @@ def replay(ctx, case):
         balanced_case(ctx, case)
     elif kind == "completion":
         completion_case(ctx, case)
+    elif kind == "wrapper_history":
+        wrapper_history_case(ctx, case)
+    elif kind == "reuse":
+        reuse_case(ctx, case)
     elif kind == "wrapper2d":
         box = [tuple(x) for x in case["box"]]
         wrapper2d_pass(ctx, [tuple(box)], all_trees(3), options=[(case["grouping"], case["slice"], case["container"])])
